@@ -310,7 +310,8 @@ package xmpp
 //@   ensures [C10.ack.resent]  (uaq != nil && err == nil) ==> exists(k, 0, old(len(uaq.Uslice)) + 1, old(ackedPrefix(uaq, lastSent, k)) && count(SendRaw) - old(count(SendRaw)) == old(len(uaq.Uslice)) - k && forall(i, 0, old(len(uaq.Uslice)) - k, arg(SendRaw, old(count(SendRaw)) + i, 1) == old(uaq.Uslice[i + k].Stz)))
 //@   ensures [C10.ack.request] (uaq != nil && err == nil) ==> (count(Send) - old(count(Send)) == ite(count(SendRaw) > old(count(SendRaw)), 1, 0)) && (count(Send) > old(count(Send)) ==> typeof(last(Send, 1)) == stanza.SMRequest && atlast(SendRaw) < atlast(Send))
 //@   ensures [C10.ack.lock]    uaq != nil ==> locked(addr(uaq.RWMutex)) == old(locked(addr(uaq.RWMutex)))
-//@   ensures wfQueue(uaq) && backingOK(uaq)
+//@   ensures wfQueue(uaq)
+//@   ensures backingOK(uaq)
 //@   assigns uaq.Uslice, senderQueue(s).Uslice, locked(addr(uaq.RWMutex))
 //@   emits Send, SendAttrs, SendRaw, Write
 //@   loop 1:
